@@ -2,6 +2,8 @@ use crate::engine::{Check, Ctx, Report};
 use serde_json::Value as J;
 
 pub mod c01;
+pub mod c03;
+pub mod c05;
 pub mod c07;
 pub mod c13;
 pub mod c14;
@@ -18,6 +20,8 @@ pub struct Property {
 pub fn all() -> Vec<Property> {
     vec![
         Property { id: "C01", run: c01::run, replay: c01::replay },
+        Property { id: "C03", run: c03::run, replay: c03::replay },
+        Property { id: "C05", run: c05::run, replay: c05::replay },
         Property { id: "C07", run: c07::run, replay: c07::replay },
         Property { id: "C13", run: c13::run, replay: c13::replay },
         Property { id: "C14", run: c14::run, replay: c14::replay },
